@@ -133,8 +133,8 @@ CHECKS = {
         'sys.path (self-containedness); all variants must return equal values (with spans) or raise the same error class at the '
         'same position on every input. In the Coq model a `grammar <name>` header has no semantic effect at all (it only threads '
         'one more parameter through every generated signature and call), which is what the named-vs-unnamed runs confirm for the code.',
-   note=TB + 'no theorem: that CPython executes the emitted text the same way in a fresh module, and CodeBuilder.compile, are outside any model I could honestly write (DESIGN.md §9).',
-   technique='differential execution of 5 in-process variants + standalone execution of the emitted source in an isolated interpreter',
+   note=TB + 'partial: the theorems (Props/C11.v) cover the one semantic switch, uses_context; that CPython executes the emitted text the same way in a fresh module, include_source and repeated compilation are decided by differential runs (DESIGN.md §9).',
+   technique='Coq proof of the calling-convention core (Conv.v: every call binds, a grammar name is irrelevant) + differential execution of 5 in-process variants and of the emitted source in an isolated interpreter',
    ref='DESIGN.md §6 C11'),
  'C12': dict(
    category='translation_validation',
@@ -144,7 +144,7 @@ CHECKS = {
         'their agreement on ALL grammar descriptions follows from that identity; a corpus run (every grammar string of the repository\'s '
         'tests/docs/examples, generated descriptions, ~1500 corrupted variants: tree repr or error class and position) cross-checks it.',
    note=TB + 'no theorem about generate_parser.py; the meaning of the meta-grammar itself is covered by the C01-C06 theorems applied to grammar.txt like to any grammar.',
-   technique='textual fixed-point check of bootstrap generations 0/1/2 + differential corpus run',
+   technique='Coq lemmas for the inference (a reproduced text is reproduced forever; same text, same behaviour) + concrete textual fixed-point check of bootstrap generations 0/1/2 + differential corpus run',
    ref='DESIGN.md §6 C12'),
  'C14': dict(
    text='Coq theorems on a model of ParsedObject.__eq__/__hash__/_hash over nested values (scalars with Python\'s == quotiented, '
